@@ -111,7 +111,7 @@ def closure_norestart(s):
 
 def run_all(tier):
     """Shared run for all properties of this engine; cached per (tree, spec, harness, tier, seed)."""
-    key = "%s-%s-%d" % (tree_hash(), tier, vp.seed())
+    key = "%s-%s-%d%s" % (tree_hash(), tier, vp.seed(), ("-only-" + hashlib.sha256(os.environ["VERIF_ONLY"].encode()).hexdigest()[:8]) if os.environ.get("VERIF_ONLY") else "")
     cdir = os.path.join(vp.WORKROOT, "cache-swapfsm")
     cfile = os.path.join(cdir, key + ".json")
     if os.path.exists(cfile) and not os.environ.get("VERIF_NOCACHE"):
@@ -221,7 +221,7 @@ def run_all(tier):
         viols = []
         for x in v["viol"]:
             s = scheds[x["t"] - 1]
-            viols.append(dict(sig=x["sig"], t=x["t"], seq=x["seq"], name=s["name"], schedule=dict(name=s["name"], cfg=s["cfg"], steps=s["steps"])))
+            viols.append(dict(sig=x["sig"], t=x["t"], seq=x["seq"], name=s["name"], schedule={k: s[k] for k in ("name", "cfg", "steps", "closed", "closure", "stored_version") if k in s}))
         for x in rviol:
             s = rsched[x["t"] - 1]
             viols.append(dict(sig=x["sig"], t=x["t"], seq=x["seq"], name=s["name"] + ":retransmit", schedule=dict(name=s["name"], cfg=s["cfg"], steps=s["steps"], psim_flags="-retransmit 25ms")))
